@@ -112,6 +112,13 @@ type Spec struct {
 	// ImportAlias[pkg] is the alias under which user files import package pkg
 	// ("" = none).
 	ImportAlias map[int]string `json:"importalias,omitempty"`
+	// ExtRoot, when set, gives the non-root packages import paths below it
+	// (external dependencies) instead of below the program's own path.
+	ExtRoot string `json:"extroot,omitempty"`
+	// NoTrace renders provider bodies without the trace package and omits the driver.
+	NoTrace bool `json:"notrace,omitempty"`
+	// Blank lists import paths that injector files import for side effects (_).
+	Blank []string `json:"blank,omitempty"`
 	// Note describes how the program was derived (mutation, matrix cell).
 	Note string `json:"note,omitempty"`
 	// JointSets renders the set variables of each package in one multi-name
@@ -138,6 +145,9 @@ func (s *Spec) decl(i int) *Decl { return &s.Decls[i] }
 func (s *Spec) pkgPath(i int) string {
 	if i < 0 {
 		return "unsafe"
+	}
+	if s.ExtRoot != "" && i > 0 {
+		return s.ExtRoot + "/" + s.Pkgs[i].Dir
 	}
 	p := ProgPath(s.name)
 	if s.Pkgs[i].Dir != "" {
